@@ -21,6 +21,24 @@ NEEDS = {
  "C17-a": "round-off slack in the drop-outside test uses one global scale; a mixed bounded/unbounded box (infinite slack) and a poll within one mesh step of a finite bound",
  "C18-a": "break on an empty ES generation leaves the pre-allocated result uninitialised; a constraint that rejects every candidate of generation 0",
  "C19-a": "yval not reloaded when the incumbent is swapped for an earlier iterate; a noisy run with a swap followed by an iteration that does not move",
+ "C01-b": "copy-paste slip in _update_search_bounds_ (upper search bound no longer pulled back inside); an optimum on/beyond an upper bound whose internal image is off the dyadic grid, at a mesh where it rounds up",
+ "C02-b": "constraint test C <= 0 replaced by (C < 0) | isclose(C, 0): violations in (0, 1e-8] pass; a constraint reporting violations as small numbers",
+ "C03-b": "max_iter test without the -1; search_n_try of 0 or 1 (search and poll in the same loop pass)",
+ "C04-b": "_update_incumbent_ skips moves with np.allclose(u_new, u_best); a strictly better point within ~1e-5 relative of the incumbent (fine meshes, incumbent away from the centre)",
+ "C05-b": "noise test via np.isclose (default rtol 1e-5); auto-detected noise on a target whose value is large relative to its noise",
+ "C07-b": "seed guard 'if random_seed:'; random_seed = 0",
+ "C08-b": "in-place masked write keeps an integer x0's dtype; x0 given as integers on/near a hard bound",
+ "C09-b": "np.append without axis=0 flattens the noise cache S on growth; specified noise and more recorded points than cache_size, then one more search/poll evaluation",
+ "C10-b": "exception context appended to err.args[0]; a target exception with empty args",
+ "C12-b": "duplicate detection with np.isclose; two distinct points agreeing to ~1e-5 relative, specified noise or an unrecorded evaluation",
+ "C13-b": "stall test reads optim_state['fval'/'fsd'] (stale in noisy modes after re-estimation); noisy run, accelerate_mesh, failed poll at iteration > 3 after a re-estimate",
+ "C14-b": "force_poll_mesh snaps poll points to the poll mesh instead of the search mesh; option force_poll_mesh=True",
+ "C15-b": "X_max_idx clamped at cache_size - 1 (never updated on growth); more recorded points than cache_size",
+ "C16-b": "f-string formatting of an ndarray in the post-retry warning; option gp_warnings=True and a failed refit attempt",
+ "C17-b": "initial design filtered before snapping to the grid; a coarse search grid so that two design points snap to the same node / across the constraint",
+ "C18-b": "search bounds rounded with the previous iteration's search mesh; non-dyadic bounds and a mesh re-expansion followed by a search in the same iteration",
+ "C19-b": "target_type taken from the logger's construction-time flags; auto-detected noise",
+ "C20-b": "memoised default evaluation keyed by (file, D); two instances with the same D and different tol_fun (dependent defaults tol_noise, hedge_beta)",
  "C20-a": "VariableTransformer keeps references to the caller's arrays and log-transforms them in place; bounds given as arrays with a log-transformed coordinate",
 }
 for d in sorted(glob.glob(os.path.join(HERE, "seeded", "*"))):
